@@ -11,6 +11,9 @@ import CLModel.Checks.Fluent
 import CLModel.Proofs.C08
 import CLModel.Proofs.C08Plural
 import CLModel.Proofs.C08Refs
+import CLModel.Proofs.C08CGrammar
+import CLModel.Proofs.C08CAgree
+import CLModel.Proofs.C08CReject
 namespace C08
 open Ftl Gen.Tables
 
@@ -412,5 +415,163 @@ example : (checkTerm none ⟨0, t "t", nestedSel, []⟩).length = 2 := by decide
 example : (checkMessage none (.message ⟨0, t "m", some (pat "v"), []⟩) ⟨0, t "m", some nestedSel, []⟩).length = 0 := by decide +kernel
 
 end examples
+
+/-! ## extension C: `badStyle` / `parse_css_spec` and an independent grammar of CSS size specs
+
+`badStyle` in `ftl_error_iff` is the verdict of the regex code.  Here it is related to a grammar that knows
+nothing about regexes: `C08C.CssSpec ds v` — optional leading `ws* (; ws*)?`, the declarations `ds`, each
+`prop ws* : ws* number unit` (`number` = digits, or optional digits `.` digits), separated by `ws* ; ws*`,
+optional trailing `ws* (; ws*)?`.  The property names (`C08C.cssProps`) and units (`C08C.cssUnits`) are read off
+the generated `_css_spec` regex, so a unit added upstream is in the grammar at once. -/
+
+/-- css_models_agree: checks/fluent.py and checks/dtd.py use the same `CSSCheckMixin.parse_css_spec`; its two models
+    (`Ftl.parseCssSpec`, `Dtd.parseCssSpec`) return the same map and the same errors on EVERY text (they differ in
+    representation only), so theorems about one hold for the other. -/
+theorem css_models_agree (v : Str) :
+    parseCssSpec v =
+      ((Dtd.parseCssSpec v).1.map C08C.toFtlMap, (Dtd.parseCssSpec v).2.map (·.map C08C.toFtlErr)) :=
+  C08C.css_models_agree v
+
+/-- css_grammar_accepts (soundness of the grammar w.r.t. the code): every grammatical spec is parsed without errors,
+    and the map is exactly that of its declarations — `ref_map[prop] = unit` in their order (Python dict). -/
+theorem css_grammar_accepts (ds : List C08C.Decl) (v : Str) (h : C08C.CssSpec ds v) :
+    (parseCssSpec v).2 = none ∧
+    (parseCssSpec v).1 = some ((C08C.declMap ds).map (fun p => (p.1, some p.2))) := by
+  rw [C08C.css_grammar_accepts_ftl ds v h]
+  exact ⟨rfl, rfl⟩
+
+/-- … with pairwise distinct property names that map is the list of (property, unit) pairs as written -/
+theorem css_grammar_map_distinct (ds : List C08C.Decl) (h : (ds.map (·.prop)).Nodup) :
+    C08C.declMap ds = ds.map (fun d => (d.prop, d.unit)) :=
+  C08C.declMap_distinct ds h
+
+/-- A grammatical spec is never "bad": a `style` attribute whose value is one text element in the grammar never
+    contributes an error to `ftl_error_iff` / `ftl_error_count`. -/
+theorem css_grammar_not_bad (ds : List C08C.Decl) (v : Str) (h : C08C.CssSpec ds v) : cssBad v = false := by
+  unfold cssBad
+  rw [C08C.css_grammar_accepts_ftl ds v h]
+  have hne := C08C.declMap_ne_nil (C08C.cssSpec_ne_nil h)
+  cases hm : C08C.declMap ds with
+  | nil => exact absurd hm hne
+  | cons x xs => simp [cssBadP, C08C.toFtlMap]
+
+theorem style_grammar_not_bad (pos start : Nat) (ds : List C08C.Decl) (v : Str) (h : C08C.CssSpec ds v) :
+    badStyle ⟨pos, sStyle, .mk start [.text v]⟩ = false := by
+  simp [badStyle, patternVariants, Pattern.elements, css_grammar_not_bad ds v h]
+
+/-- css_spec_errors: on a spec with defects (`C08C.SpecE`: every gap before a declaration is a correct separator,
+    white space without the semicolon, or junk; the trailing text is correct or junk) `parse_css_spec` returns the map
+    of all declarations and exactly one error per defective gap, in order: `css-missing-semicolon` /
+    `css-bad-content` at the end of the preceding declaration (0 before the first). -/
+theorem css_spec_errors (ds : List C08C.Decl) (v : Str) (errs : List Dtd.CssErr) (h : C08C.SpecE true 0 ds v errs) :
+    parseCssSpec v = (some (C08C.toFtlMap (C08C.declMap ds)), (C08C.optOf errs).map (·.map C08C.toFtlErr)) := by
+  rw [C08C.css_models_agree, C08C.css_spec_errors ds v errs h]
+  rfl
+
+/-- … so any defect makes the style bad (the check yields the error "reference is a CSS spec") -/
+theorem css_defect_bad (ds : List C08C.Decl) (v : Str) (errs : List Dtd.CssErr) (h : C08C.SpecE true 0 ds v errs)
+    (he : errs ≠ []) : cssBad v = true := by
+  unfold cssBad
+  rw [css_spec_errors ds v errs h]
+  have hds : ds ≠ [] := by cases h <;> simp
+  have hne := C08C.declMap_ne_nil hds
+  cases hm : C08C.declMap ds with
+  | nil => exact absurd hm hne
+  | cons x xs =>
+    cases errs with
+    | nil => exact absurd rfl he
+    | cons e es => simp [cssBadP, C08C.toFtlMap, C08C.optOf]
+
+/-- the breaking edits of the harness: two correct blocks with only white space (or nothing: touching declarations)
+    between them → exactly `css-missing-semicolon` at the end of the first block … -/
+theorem css_missing_semicolon (ds1 ds2 : List C08C.Decl) (lead t1 ws t2 trail : Str) (hl : C08C.IsEdge lead)
+    (h1 : C08C.DeclsText ds1 t1) (hws : ws.all C08C.isWs = true) (h2 : C08C.DeclsText ds2 t2) (htr : C08C.IsEdge trail) :
+    (parseCssSpec (lead ++ (t1 ++ (ws ++ (t2 ++ trail))))).2 = some [CssErr.missingSemicolon (lead.length + t1.length)] ∧
+    cssBad (lead ++ (t1 ++ (ws ++ (t2 ++ trail)))) = true := by
+  have hd := C08C.css_missing_semicolon ds1 ds2 lead t1 ws t2 trail hl h1 hws h2 htr
+  have hp : parseCssSpec (lead ++ (t1 ++ (ws ++ (t2 ++ trail)))) =
+      (some (C08C.toFtlMap (C08C.declMap (ds1 ++ ds2))), some [CssErr.missingSemicolon (lead.length + t1.length)]) := by
+    rw [C08C.css_models_agree, hd]; rfl
+  refine ⟨by rw [hp], ?_⟩
+  unfold cssBad
+  rw [hp]
+  have hne := C08C.declMap_ne_nil (ds := ds1 ++ ds2) (by
+    have := C08C.declsText_ne_nil h1
+    simp [this])
+  cases hm : C08C.declMap (ds1 ++ ds2) with
+  | nil => exact absurd hm hne
+  | cons x xs => simp [cssBadP, C08C.toFtlMap]
+
+/-- … junk after a correct spec → exactly `css-bad-content` at the end of the last declaration … -/
+theorem css_junk_after (ds : List C08C.Decl) (lead t junk : Str) (hl : C08C.IsEdge lead) (h : C08C.DeclsText ds t)
+    (hj : C08C.IsJunk junk) :
+    (parseCssSpec (lead ++ (t ++ junk))).2 = some [CssErr.badContent (lead.length + t.length)] ∧
+    cssBad (lead ++ (t ++ junk)) = true := by
+  have hp : parseCssSpec (lead ++ (t ++ junk)) =
+      (some (C08C.toFtlMap (C08C.declMap ds)), some [CssErr.badContent (lead.length + t.length)]) := by
+    rw [C08C.css_models_agree, C08C.css_junk_after ds lead t junk hl h hj]; rfl
+  refine ⟨by rw [hp], ?_⟩
+  unfold cssBad
+  rw [hp]
+  have hne := C08C.declMap_ne_nil (C08C.declsText_ne_nil h)
+  cases hm : C08C.declMap ds with
+  | nil => exact absurd hm hne
+  | cons x xs => simp [cssBadP, C08C.toFtlMap]
+
+/-- … junk before a correct spec → exactly `css-bad-content` at position 0 -/
+theorem css_junk_before (ds : List C08C.Decl) (junk t trail : Str) (hj : C08C.IsJunk junk) (h : C08C.DeclsText ds t)
+    (htr : C08C.IsEdge trail) :
+    (parseCssSpec (junk ++ (t ++ trail))).2 = some [CssErr.badContent 0] ∧ cssBad (junk ++ (t ++ trail)) = true := by
+  have hp : parseCssSpec (junk ++ (t ++ trail)) =
+      (some (C08C.toFtlMap (C08C.declMap ds)), some [CssErr.badContent 0]) := by
+    rw [C08C.css_models_agree, C08C.css_junk_before ds junk t trail hj h htr]; rfl
+  refine ⟨by rw [hp], ?_⟩
+  unfold cssBad
+  rw [hp]
+  have hne := C08C.declMap_ne_nil (C08C.declsText_ne_nil h)
+  cases hm : C08C.declMap ds with
+  | nil => exact absurd hm hne
+  | cons x xs => simp [cssBadP, C08C.toFtlMap]
+
+section examplesC
+open C08C
+
+private def tx (s : String) : Str := s.toList.map Char.toNat
+
+/-- what the grammar reads off the generated regex (pins: they document the lists; the theorems do not depend on them) -/
+example : cssProps = [tx "min-width", tx "min-height", tx "max-width", tx "max-height", tx "width", tx "height"] := by decide
+example : cssUnits = [tx "ch", tx "em", tx "ex", tx "rem", tx "px", tx "cm", tx "mm", tx "in", tx "pc", tx "pt"] := by decide
+
+private def d1 : Decl := ⟨tx "width", [], tx " ", tx "12", tx "em"⟩
+private def d2 : Decl := ⟨tx "min-height", tx " ", [], tx ".5", tx "px"⟩
+private theorem d1ok : d1.Ok := ⟨by decide, by decide, by decide, .int (tx "12") (by decide) (by decide), by decide⟩
+private theorem d2ok : d2.Ok := ⟨by decide, by decide, by decide, .frac [] (tx "5") (by decide) (by decide) (by decide), by decide⟩
+
+/-- non-vacuity: " width: 12em ;min-height :.5px; " is in the grammar … -/
+example : CssSpec [d1, d2] (tx " " ++ ((d1.text ++ (tx " ;" ++ d2.text)) ++ tx "; ")) :=
+  .mk (tx " ") _ (tx "; ") _ (Or.inl (by decide))
+    (.cons d1 (tx " ;") [d2] d2.text d1ok ⟨tx " ", [], by decide, by decide, by decide⟩ (.one d2 d2ok))
+    (Or.inr ⟨[], tx " ", by decide, by decide, by decide⟩)
+/-- … and the regex code, evaluated, agrees with the theorem -/
+example : parseCssSpec (tx " width: 12em ;min-height :.5px; ") =
+    (some [(tx "width", some (tx "em")), (tx "min-height", some (tx "px"))], none) := by decide +kernel
+example : declMap [d1, d2] = [(tx "width", tx "em"), (tx "min-height", tx "px")] := by decide
+
+/-- the junk of the harness's edits is junk in the sense of the theorems: "x", "x ", "; foo", ", " -/
+example : IsJunk (tx "x") := ⟨by decide, ⟨120, by decide, by decide, by decide⟩⟩
+example : IsJunk (tx "x ") := ⟨by decide, ⟨120, by decide, by decide, by decide⟩⟩
+example : IsJunk (tx "; foo") := ⟨by decide, ⟨102, by decide, by decide, by decide⟩⟩
+example : IsJunk (tx ", ") := ⟨by decide, ⟨44, by decide, by decide, by decide⟩⟩
+/-- … evaluated: "width: 12emx", "x width: 12em", "width: 12em min-height :.5px", "width: 12emmin-height :.5px" -/
+example : (parseCssSpec (tx "width: 12emx")).2 = some [CssErr.badContent 11] ∧
+    (parseCssSpec (tx "x width: 12em")).2 = some [CssErr.badContent 0] ∧
+    (parseCssSpec (tx "width: 12em min-height :.5px")).2 = some [CssErr.missingSemicolon 11] ∧
+    (parseCssSpec (tx "width: 12emmin-height :.5px")).2 = some [CssErr.missingSemicolon 11] := by decide +kernel
+
+/-- outside the grammar and outside the defect classes (no theorem; the code's verdicts, pinned):
+    two semicolons are bad content, a leading semicolon is accepted (it is in the grammar: `IsEdge`) -/
+example : cssBad (tx "width:1em;;height:2px") = true ∧ cssBad (tx ";width:1em") = false := by decide +kernel
+
+end examplesC
 
 end C08
